@@ -441,6 +441,22 @@ theorem padburst (burstLen sampleLen : Nat) (hs : sampleLen ≤ maxSegmentLength
     · simp only [List.map_cons, List.map_nil, List.sum_cons, List.sum_nil]
       omega
 
+/-- **Exact stream, client → server.** `Write(b)` (any `b`, any sampled length up to a segment, any
+keystream position) never panics and writes bytes that a receiver holding the same keys decodes —
+in ANY segmentation — to exactly `b`: the padding packets deliver nothing, nothing is left over,
+no error. -/
+theorem write_exact (P : Prims) (k : DirKeys) (hm : MacLen P) (hx : StreamOK P k) (o : Nat) (b : Bytes)
+    (sample : Nat) (hs : sample ≤ maxSegmentLength) :
+    ∃ o' wire, connWrite P ⟨k, o⟩ b sample = some (⟨k, o'⟩, wire) ∧
+      ∀ cs : List Bytes, cs.flatten = wire →
+        delivered (feedChunks P k (Rx.init o) [] cs).2.1 = b ∧
+        (feedChunks P k (Rx.init o) [] cs).2.2 = [] ∧
+        (feedChunks P k (Rx.init o) [] cs).1.failed = false := by
+  obtain ⟨hw, hok, hpb⟩ := connWrite_eq P k o b sample (fun bl => (padburst bl sample hs).1)
+  refine ⟨_, _, hw, fun cs hcs => ?_⟩
+  obtain ⟨_, hd, hr, hf⟩ := stream_exact P k hm hx o _ hok cs hcs
+  exact ⟨hd.trans hpb, hr, hf⟩
+
 /-- both branches occur: one packet (burst 100, sample 50), two packets (burst 1440, sample 1447) -/
 example : padBurstLens 100 50 = [1377] ∧ padBurstLens 1440 1447 = [679, 713] := by decide
 
